@@ -81,8 +81,18 @@ def check_case(spec, inst, mo, churn_seed=None):
                         return f'attribute {k} of {n["full_name"]} is {n[k]!r}, expected {w[k]!r} {what}'
             return None
         p = faithful(g, x.full_name, f'after {x.full_name} was edited in place (nodes share mutable data)')
-        p = p or faithful(AttackGraph(lg, m), None, f'in a graph generated after a node of an earlier graph ({x.full_name}) was edited in place')
+        g2 = AttackGraph(lg, m)
+        p = p or faithful(g2, None, f'in a graph generated after a node of an earlier graph ({x.full_name}) was edited in place')
         if p: probs.append(p)
+        # the lookups of the first graph still answer from the first graph (two live graphs of one model have the
+        # same full names: an index shared between graph objects shows here)
+        if not probs:
+            for n in g.nodes:
+                if g.get_node_by_full_name(n.full_name) is not n or g.get_node_by_id(n.id) is not n:
+                    probs.append(f'lookup of {n.full_name} in a graph returns a node of another graph generated later from the same model'); break
+            for n in g2.nodes:
+                if g2.get_node_by_full_name(n.full_name) is not n or g2.get_node_by_id(n.id) is not n:
+                    probs.append(f'lookup of {n.full_name} in the later graph does not return its own node'); break
     if probs:
         return Violation(what=probs[0], fingerprint='C02:' + probs[0].split(' of ')[0].split(':')[0][:40],
                          replay={'spec': spec, 'inst': inst, 'problems': probs})
